@@ -12,6 +12,9 @@
     loader_invariant_under_every_schedule returned_templates_are_current
     atomic_load_is_nested_load each_load_correct_nested nested_load_without_includes_is_load
     nested_load_result
+    lock_order_deadlock_free ranked_lock_order_deadlock_free lock_order_never_stuck
+    single_lock_deadlock_free lock_order_cycle_deadlocks lock_order_cycle_has_no_rank
+    lock_order_mutex
 -/
 import Genshi.Lemmas.ConcLoad
 import Genshi.Lemmas.ConcSerial
@@ -21,6 +24,7 @@ import Genshi.Lemmas.ConcNested
 import Genshi.Lemmas.Lru
 import Genshi.Model.ConcLru
 import Genshi.Gen.Loader
+import Genshi.Lemmas.LockOrder
 namespace Genshi.Props.C16
 open Genshi.Lru Genshi.Loader Genshi.Conc
 
@@ -301,5 +305,127 @@ example : ((loadN (nestCfg true) (LState.init 2)
 example : (loadN (nestCfg true) (LState.init 2)
       (.mk { base := 0 } ⟨none, false, 0⟩ [.mk { base := 7 } ⟨none, false, 7⟩ []])).2 = .err .callback := by
   decide
+
+/-! ## several re-entrant locks: the lock order (`Genshi/Model/LockOrder.lean`)
+
+  The loader lock is not the only lock a thread may hold: any lock a genshi module creates and
+  takes around a call that ends in `load` (or that a loader callback takes inside `load`) adds
+  to the nesting.  Threads are programs of `acquire l` / `release l`; the harness records these
+  programs on the real threads (every lock the genshi modules create is wrapped) and replays the
+  recorded execution on this model (`gdrv C16 locks`). -/
+section LockOrder
+open Genshi.LockOrder
+
+/-- **Deadlock freedom from an acyclic lock order.**  If there is a strict partial order on the
+    locks that every nested acquisition of every thread program respects (a thread acquires a
+    lock it does not hold yet only when every lock it holds is below it; it releases only what
+    it holds and ends holding nothing), then under every schedule, for every number of threads
+    and locks: as long as some thread is not finished, some thread can take a step. -/
+theorem lock_order_deadlock_free (lt : Lock → Lock → Bool) (irr : ∀ a, lt a a = false)
+    (tr : ∀ a b c, lt a b = true → lt b c = true → lt a c = true)
+    (progs : List (List Act)) (hok : ∀ p ∈ progs, ok lt [] p = true) (sched : List LockOrder.Tid)
+    (t : LockOrder.Tid) (ht : t < (LockOrder.exec (.init progs) sched).n)
+    (hunf : ((LockOrder.exec (.init progs) sched).threads t).finished = false) :
+    ∃ u, u < (LockOrder.exec (.init progs) sched).n ∧
+      (LockOrder.step (LockOrder.exec (.init progs) sched) u).isSome = true :=
+  (linv_exec (linv_init lt progs hok) sched).progress irr tr ht hunf
+
+/-- The form the check uses: a numbering of the locks (a topological numbering of the observed
+    held → wanted graph, which exists iff that graph is acyclic) that every thread program
+    respects — `ok (byRank rank) [] p` is what `gdrv C16 locks` evaluates on the recorded
+    programs — excludes deadlock under every schedule. -/
+theorem ranked_lock_order_deadlock_free (rank : Lock → Nat) (progs : List (List Act))
+    (hok : ∀ p ∈ progs, ok (byRank rank) [] p = true) (sched : List LockOrder.Tid)
+    (t : LockOrder.Tid) (ht : t < (LockOrder.exec (.init progs) sched).n)
+    (hunf : ((LockOrder.exec (.init progs) sched).threads t).finished = false) :
+    ∃ u, u < (LockOrder.exec (.init progs) sched).n ∧
+      (LockOrder.step (LockOrder.exec (.init progs) sched) u).isSome = true :=
+  lock_order_deadlock_free (byRank rank) (byRank_irrefl rank) (byRank_trans rank) progs hok sched t ht hunf
+
+/-- the same with the executable deadlock test the driver reports -/
+theorem lock_order_never_stuck (rank : Lock → Nat) (progs : List (List Act))
+    (hok : ∀ p ∈ progs, ok (byRank rank) [] p = true) (sched : List LockOrder.Tid) :
+    stuck (LockOrder.exec (.init progs) sched) = false :=
+  stuck_false_of_progress fun t ht hunf =>
+    ranked_lock_order_deadlock_free rank progs hok sched t ht hunf
+
+/-- One lock (the unchanged code: `TemplateLoader._lock` is the only lock genshi creates):
+    balanced programs over a single re-entrant lock never deadlock, whatever the nesting. -/
+theorem single_lock_deadlock_free (l0 : Lock) (progs : List (List Act))
+    (hone : ∀ p ∈ progs, ∀ a ∈ p, a = .acq l0 ∨ a = .rel l0)
+    (hbal : ∀ p ∈ progs, ok (fun _ _ => true) [] p = true) (sched : List LockOrder.Tid) :
+    stuck (LockOrder.exec (.init progs) sched) = false :=
+  stuck_false_of_progress fun t ht hunf =>
+    lock_order_deadlock_free (fun _ _ => false) (fun _ => rfl) (fun _ _ _ h _ => by cases h) progs
+      (fun p hp => ok_single l0 _ p [] (by simp) (hone p hp) (hbal p hp)) sched t ht hunf
+
+/-- No lock has two holders, in every reachable state. -/
+theorem lock_order_mutex (lt : Lock → Lock → Bool) (progs : List (List Act))
+    (hok : ∀ p ∈ progs, ok lt [] p = true) (sched : List LockOrder.Tid) (t u : LockOrder.Tid) (l : Lock)
+    (ht : t < (LockOrder.exec (.init progs) sched).n) (hu : u < (LockOrder.exec (.init progs) sched).n)
+    (hlt : l ∈ ((LockOrder.exec (.init progs) sched).threads t).held)
+    (hlu : l ∈ ((LockOrder.exec (.init progs) sched).threads u).held) : t = u :=
+  (linv_exec (linv_init lt progs hok) sched).excl t u l ht hu hlt hlu
+
+/-- lock 0 = the loader lock, lock 1 = a second lock (the shape of seeded change C16-4: a
+    module-level lock taken around `_prepare`, whose inlined includes call `load`, and inside
+    `add_directives`, which a loader callback calls inside `load`) -/
+def cycleProgs : List (List Act) :=
+  [[.acq 1, .acq 0, .rel 0, .rel 1],     -- first render of a loaded template: prepare → load
+   [.acq 0, .acq 1, .rel 1, .rel 0]]     -- load of an uncached name → callback → add_directives
+
+/-- The converse witness: two locks taken in opposite orders by two threads deadlock — after
+    one step of each thread both are unfinished and neither can ever step again. -/
+theorem lock_order_cycle_deadlocks :
+    stuck (LockOrder.exec (.init cycleProgs) [0, 1]) = true ∧
+    ∀ sched, stuck (LockOrder.exec (LockOrder.exec (.init cycleProgs) [0, 1]) sched) = true := by
+  refine ⟨by decide, ?_⟩
+  have hfix : ∀ t : Nat, LockOrder.step (LockOrder.exec (.init cycleProgs) [0, 1]) t = none := by
+    intro t
+    by_cases h0 : t = 0
+    · subst h0; decide
+    · by_cases h1 : t = 1
+      · subst h1; decide
+      · apply step_ge
+        rw [exec_n]
+        show ¬ t < 2
+        intro hlt
+        match t, h0, h1, hlt with
+        | 0, h0, _, _ => exact h0 rfl
+        | 1, _, h1, _ => exact h1 rfl
+        | n + 2, _, _, hlt => exact absurd hlt (by omega)
+  intro sched
+  have : LockOrder.exec (LockOrder.exec (.init cycleProgs) [0, 1]) sched =
+      LockOrder.exec (.init cycleProgs) [0, 1] := by
+    induction sched with
+    | nil => rfl
+    | cons t ts ih => rw [LockOrder.exec, hfix t]; exact ih
+  rw [this]; decide
+
+/-- … although each program alone keeps a lock order; no numbering of the locks serves both:
+    the hypothesis of `ranked_lock_order_deadlock_free` fails exactly because the observed
+    graph 1 → 0 → 1 has a cycle. -/
+theorem lock_order_cycle_has_no_rank (rank : Lock → Nat) :
+    ¬ (∀ p ∈ cycleProgs, ok (byRank rank) [] p = true) := by
+  intro h
+  have h0 := h [.acq 1, .acq 0, .rel 0, .rel 1] (by simp [cycleProgs])
+  have h1 := h [.acq 0, .acq 1, .rel 1, .rel 0] (by simp [cycleProgs])
+  simp [ok, byRank] at h0 h1
+  omega
+
+-- non-vacuity: nested acquisitions in one order (with a re-entrant re-acquisition) have a rank
+example : ∀ p ∈ [[Act.acq 0, .acq 1, .acq 0, .rel 0, .rel 1, .rel 0], [.acq 1, .rel 1], [.acq 0, .acq 1, .rel 1, .rel 0]],
+    ok (byRank id) [] p = true := by decide
+-- … and the run in which thread 1 is blocked by thread 0 goes on: thread 0 can step
+example : (LockOrder.step (LockOrder.exec (.init [[.acq 0, .acq 1, .rel 1, .rel 0], [.acq 1, .acq 0, .rel 0, .rel 1]]) [0, 0, 1]) 1).isNone = true ∧
+    (LockOrder.step (LockOrder.exec (.init [[.acq 0, .acq 1, .rel 1, .rel 0], [.acq 1, .acq 0, .rel 0, .rel 1]]) [0, 0, 1]) 0).isSome = true := by decide
+-- each program of the cycle alone is in order (for its own numbering), the edges are the cycle
+example : ok (byRank fun l => 1 - l) [] [.acq 1, .acq 0, .rel 0, .rel 1] = true ∧
+    ok (byRank id) [] [.acq 0, .acq 1, .rel 1, .rel 0] = true ∧
+    cycleProgs.flatMap (edges []) = [(1, 0), (0, 1)] := by decide
+-- one lock, nested three deep by one thread while another waits
+example : ok (fun _ _ => true) [] [Act.acq 0, .acq 0, .acq 0, .rel 0, .rel 0, .rel 0] = true := by decide
+
+end LockOrder
 
 end Genshi.Props.C16
